@@ -103,10 +103,11 @@ pub fn plan_run(verif_seed: u64, run_index: u64, lim: &Limits) -> Plan {
     // "small input" shortcuts) are invisible below them
     let big = lim.max_n >= 200 && rng.chance(0.015);
     let glim = if big {
-        let n = 260 + rng.below(1000) as usize;
+        let n = 260 + rng.below(2800) as usize;
         GenLimits {
             max_n: n,
             min_n: n * 3 / 4,
+            max_n_3d: 1200,
             ..Default::default()
         }
     } else {
